@@ -161,6 +161,7 @@ type muxModel struct {
 	problems []vtProblem
 	removed  map[int]bool // generations removed by ufrag earlier in the history
 	wroteTo  map[int]map[string]bool
+	lastW    map[int]string // per connection generation: destination of its latest write
 }
 
 func newMuxModel(raw json.RawMessage) *muxModel {
@@ -291,6 +292,10 @@ func (mm *muxModel) Apply(ev string) {
 				mm.wroteTo[h.gen] = map[string]bool{}
 			}
 			mm.wroteTo[h.gen][muxCanon[a]] = true
+			if mm.lastW == nil {
+				mm.lastW = map[int]string{}
+			}
+			mm.lastW[h.gen] = a
 		}
 		// reference: a removed or closed connection owns nothing, whatever it writes
 	case "in":
@@ -435,6 +440,18 @@ func (mm *muxModel) Key() (string, []int) {
 	}
 	for g := range mm.removed {
 		ks = append(ks, fmt.Sprintf("rm:%d", g))
+	}
+	// what each live connection has written to, and where to last: two histories that leave the mux's tables equal may
+	// still differ in what a connection remembers about its own writes (a per-connection shortcut would live there)
+	for _, hs := range mm.handles {
+		for _, h := range hs {
+			var w []string
+			for a := range mm.wroteTo[h.gen] {
+				w = append(w, a)
+			}
+			sort.Strings(w)
+			ks = append(ks, fmt.Sprintf("w:%d=%v/%s", h.gen, w, mm.lastW[h.gen]))
+		}
 	}
 	sort.Strings(ks)
 	// implementation-side part: registered ufrags and address bindings
